@@ -2,7 +2,7 @@
    with all defect flags clear; the verified observer judges the implementation's
    own observation (no crash; a stop only through a safe restore). *)
 From F2G Require Export Model.Restore Model.Faults Model.FaultsOps.
-From F2G Require Import Drv.Common gen.Consts.
+From F2G Require Import Drv.Common gen.Consts Model.Util.
 From Coq Require Import Lia.
 
 Record case := mkCase {
@@ -21,6 +21,10 @@ Record case := mkCase {
   o_cyc : list (Z * Z);    (* per control cycle that ended WITHOUT error, in order: (request = lastSetPwm after the cycle,
                               PWM the device shows after the cycle).  The driver's PWM map is the identity on 0..255,
                               so the PWM-map output for a request is the request itself. *)
+  c_nwin : Z;              (* TempRollingWindowSize *)
+  c_avg0 : f64;            (* the sensor's moving average before the first cycle *)
+  c_temps : list Z;        (* what the sensor shows in each cycle *)
+  o_avgs : list f64;       (* the sensor's moving average after the sensor-monitor poll of each cycle (as long as nothing panicked) *)
 }.
 
 Definition dev_eqb (a b : dev) : bool := (mode a =? mode b) && (pwm a =? pwm b).
@@ -133,7 +137,37 @@ Definition holdsb1 (c : case) : bool :=
     || (attempted_last_resort (o_ops c) && o_lastw c)
   else true.
 
-Definition holdsb (c : case) : bool := holdsb1 c && regulates_freshb c.
+(* "with the last good data": the sensor-monitor poll of a cycle whose sensor read was hit by a fault
+   leaves the moving average exactly as it was (a failed or garbage read never enters the average the
+   curve works on); a good poll moves it by util.UpdateSimpleMovingAvg of the value shown.  Judged on
+   consecutive OBSERVED averages. *)
+Definition sensor_faulted (c : case) (k : nat) : bool :=
+  if per_op c then match oy_ops (nth k (c_ops c) (mkOC [] false)) with f :: _ => negb (is_none f) | [] => false end
+  else negb (is_none (cy_sensor (nth k (c_plan c) (mkCyc FNone FNone FNone 0 FNone FNone false)))).
+
+Definition expected_avg (c : case) (prev : f64) (k : nat) : f64 :=
+  if sensor_faulted c k then prev else upd_avg prev (c_nwin c) (i2f (nth k (c_temps c) 0)).
+
+Fixpoint avg_scan (c : case) (prev : f64) (k : nat) (l : list f64) : bool :=
+  match l with
+  | [] => true
+  | a :: t => feqb a (expected_avg c prev k) && avg_scan c a (S k) t
+  end.
+Fixpoint avg_ok (c : case) (prev : f64) (k : nat) (l : list f64) : Prop :=
+  match l with
+  | [] => True
+  | a :: t => feqb a (expected_avg c prev k) = true /\ avg_ok c a (S k) t
+  end.
+Lemma avg_scan_spec c l : forall prev k, avg_scan c prev k l = true <-> avg_ok c prev k l.
+Proof.
+  induction l as [|a t IH]; intros prev k; cbn [avg_scan avg_ok]; [tauto|].
+  rewrite andb_true_iff, IH. reflexivity.
+Qed.
+
+Definition last_good_datab (c : case) : bool := avg_scan c (c_avg0 c) 0 (o_avgs c).
+Definition last_good_data (c : case) : Prop := avg_ok c (c_avg0 c) 0 (o_avgs c).
+
+Definition holdsb (c : case) : bool := holdsb1 c && regulates_freshb c && last_good_datab c.
 
 Definition Holds1 (c : case) : Prop :=
   o_kind c <> 2 /\
@@ -155,9 +189,12 @@ Proof.
       intros _. split; [exact E2|]. intros H. congruence.
 Qed.
 
-Definition Holds (c : case) : Prop := Holds1 c /\ regulates_fresh c.
+Definition Holds (c : case) : Prop := (Holds1 c /\ regulates_fresh c) /\ last_good_data c.
 Lemma holdsb_spec c : holdsb c = true <-> Holds c.
-Proof. unfold holdsb, Holds. rewrite andb_true_iff, holdsb1_spec, regulates_freshb_spec. reflexivity. Qed.
+Proof.
+  unfold holdsb, Holds, last_good_datab, last_good_data.
+  rewrite !andb_true_iff, holdsb1_spec, regulates_freshb_spec, avg_scan_spec. reflexivity.
+Qed.
 
 (* a panic on the implementation is diagnosed with the model of the code as found *)
 Definition finding_code (c : case) : Z :=
